@@ -182,7 +182,9 @@ theorem generated_tx_can_pay {A Au : Type} (env : Env A Au) (rs : RuleSource) (p
 
 /-- **c14_counterexample_unrepaired**: the estimate of the unrepaired code (action and auth
 framing omitted) is below the real size for 13 actions of 128 bytes with a 145-byte (bls) auth
-and a 54-byte base: 91 + 13·128 + 145 = 1900 < 56 + 13·131 + 148 = 1907. -/
+and a worst-case 54-byte base (10-byte timestamp varint): 91 + 13·128 + 145 = 1900 < 56 + 13·131 + 148 = 1907.
+The run on the real code (13-digit millisecond timestamp: 6-byte varint, framed base 52 bytes) gave
+52 + 13·131 + 148 = 1903 > 1900. -/
 theorem c14_counterexample_unrepaired :
     estBandwidthUnrepaired (List.replicate 13 128) 145 = 1900 ∧
     56 + 13 * (1 + (2 + 128)) + (1 + (2 + 145)) = 1907 ∧
